@@ -430,6 +430,23 @@ def subclass_case(case):
             return ['wolf']
 
     lib = Guild()
+    plain = mod.TagLibrary()
+    plain_acc = []
+
+    def offer_plain():
+        # the same names offered to a plain library in the same process: for it they are ordinary new names
+        for name in case['names']:
+            if name in ('itemize',):
+                continue
+            try:
+                plain.add_tag(name)
+            except Exception as e:      # noqa
+                raise Violation(f'a plain TagLibrary refused the ordinary name {name!r} ({type(e).__name__}) '
+                                f'{"after" if case.get("order") == "sub_first" else "before"} it was offered to a subclass '
+                                f'library that has a method of that name', expected='accepted')
+            plain_acc.append(name)
+    if case.get('order') == 'plain_first':
+        offer_plain()
     acc = []
     for name in case['names']:
         try:
@@ -445,8 +462,12 @@ def subclass_case(case):
     if not ok_own:
         raise Violation(f'after add_tag of {case["names"]} (accepted: {acc}) on a TagLibrary subclass its own method / '
                         f'attribute no longer works: a tag shadows it', expected='refused, or harmless', observed=acc)
+    if case.get('order') == 'sub_first':
+        offer_plain()
     look = sorted(set(case['names']) | {'NONE', UNKNOWN})
     judge(observe_lib(lib, look, False), acc, False, f'subclass library after add_tag of {case["names"]}')
+    if case.get('order'):
+        judge(observe_lib(plain, look, False), plain_acc, False, f'plain library next to a subclass library ({case["order"]})')
     return tuple(acc)
 
 
@@ -605,15 +626,16 @@ def run(ctx):
             ctx.report(case, v)
             return
     ctx.leg('wild_names', cases=nw, pairs=len(WILD))
-    for names in (['predators'], ['kind'], ['A', 'predators', 'B'], ['kind', 'predators'], ['prey', 'itemize', 'predators']):
-        case = {'leg': 'subclass', 'names': names}
+    for names, order in [(n, o) for n in (['predators'], ['kind'], ['A', 'predators', 'B'], ['kind', 'predators'],
+                                          ['prey', 'itemize', 'predators']) for o in (None, 'plain_first', 'sub_first')]:
+        case = {'leg': 'subclass', 'names': names, 'order': order}
         ctx.traces += 1
         try:
             ctx.outcome(('subclass',) + hbfs._guard(subclass_case, case))
         except Violation as v:
             ctx.report(case, v)
             return
-    ctx.leg('subclass_library', cases=5)
+    ctx.leg('subclass_library', cases=15)
     for n in ((300,) if ctx.small else (3000,) if ctx.tier == 'quick' else (3000, 40000)):
         for target in ('L1', 'G'):
             case = {'leg': 'many_tags', 'n': n, 'target': target}
